@@ -202,7 +202,7 @@ PROGS = {
     'nonholo': ('NonHolo', f_nonholo, [(3,)], ['sign', 'missing'], 'only'),
     'scalar': ('Scalar', f_scalar, [()], ['scaled', 'missing', 'entry'], True),
     'mat2d': ('Mat2D', f_mat2d, [(2, 3)], ['sign', 'missing'], True),
-    'sparse_out': ('SparseOut', f_sparse, [(3,)], ['scaled', 'missing'], False),
+    'sparse_out': ('SparseOut', f_sparse, [(3,)], ['scaled', 'missing'], True),
     'two_in': ('TwoIn', f_two, [(3,), (3,)], ['missing', 'entry'], True),
 }
 NETS = ['net2', 'net3:a', 'net3:b', 'net3:mid', 'net3:mid_to_mid2', 'net3:a_to_mid']
